@@ -1,13 +1,13 @@
 package props
 
 import (
-	"sync"
-	"io"
-	"github.com/protobom/protobom/pkg/native/serializers"
 	"bytes"
 	"fmt"
+	"github.com/protobom/protobom/pkg/native/serializers"
+	"io"
 	"math/rand"
 	"strings"
+	"sync"
 
 	"github.com/protobom/protobom/pkg/formats"
 	"github.com/protobom/protobom/pkg/native"
